@@ -100,11 +100,18 @@ def run(ctx):
     base = {"B": '{"b1"}', "T": '{"f", "g"}', "CB": '{"c1", "c2"}', "RS": "<- RS_12", "A": "{0, 1}", "Ops": "<- AllOps"}
     behs = life.sim(ctx, base, 150 if q else 3000, 10, "random lifecycles with calls")
     life.replay(ctx, "life", behs, env={"GODEBUG": "clobberfree=1"})
+    # what keeps the replacement alive (Keep.tla): builders dropped and collections at TLC-chosen points, 5 handle kinds
+    ctx.tlc("Keep", "MC_Keep.cfg", workers=8, timeout=900, constants={"MaxOps": 6 if q else 7}, tag="reachability of replacements: builders dropped, collections")
+    kb = ctx.behaviours(ctx.tlc("Keep", "Gen_Keep.cfg", workers=1, timeout=900, constants={"MaxOps": 4 if q else 5}, tag="all histories of Mock/Reset/Drop/GC/Call"))
+    kb = [b for b in kb if any(s["op"] == "Drop" for s in b) and any(s["op"] == "GC" for s in b)]
+    kb += ctx.behaviours(ctx.tlc("Keep", "Sim_Keep.cfg", workers=1, timeout=900, simulate="num=%d" % (150 if q else 2500), depth=13, tag="random histories, 2 builders, 3 targets"))
+    life.replay(ctx, "life-keep", kb, env={"GODEBUG": "clobberfree=1"})
     ctx.cov["rule"] = ("signatures: TLC enumerates parameter groups (type x repetition) x variadic x results over the type alphabet; one witness "
                        "per distinct (integer registers used, float registers used, stack used) class for parameters and results, plus long "
                        "signatures that spill both register files; each witness: Apply (callback compares every argument with what the caller "
                        "sent, results compared by the caller) and Return stub, 5 call forms (direct, func value, deferred, other goroutine, deep "
                        "recursion in a fresh goroutine = moved stack), right after apply, after forced GCs under clobberfree, after reset; with "
-                       "logging off and debug logging")
+                       "logging off and debug logging; histories with builders dropped and collections at TLC-chosen points (Keep.tla) for function, method, "
+                       "by-name function, by-name method and generic-instantiation targets")
     ctx.assumptions += ["the ABI model is a transcription of Go's internal ABI document, not derived from the compiler; signatures outside the alphabet are not covered",
                         "library-code callers are represented by func-value and goroutine forms (no stdlib function is patched)"]
